@@ -116,3 +116,94 @@ extern "C" void h_c04_plume(unsigned long K)
   sym_reach("end");
 }
 
+
+// C02.frame.plume: the dispatch part of Plume::properties (one cross section, point at or below it, membership decided by the stubbed
+// ellipse test): a plume that does not contain the point changes nothing; inside, every requested entry is the chain of the plume's own
+// models in list order at its own slots (temperature and velocity models also get the relative distance), tag = own index, nothing else is written.
+namespace
+{
+  struct StubPT2 final : PM::Temperature::Interface
+  { unsigned id; void parse_entries(Parameters &) override {}
+    double get_temperature(const Point<3> &, const Objects::NaturalCoordinate &, const double depth, const double, double t, const double fmin, const double fmax, const double rel) const override
+    { return sym_uf4(100+id, depth, t, fmin + fmax, rel); } };
+  struct StubPC final : PM::Composition::Interface
+  { unsigned id; void parse_entries(Parameters &) override {}
+    double get_composition(const Point<3> &, const Objects::NaturalCoordinate &, const double depth, const unsigned int n, double c, const double fmin, const double fmax) const override
+    { return sym_uf4(200+id+10*n, depth, c, fmin, fmax); } };
+  struct StubPG final : PM::Grains::Interface
+  { unsigned id; void parse_entries(Parameters &) override {}
+    WorldBuilder::grains get_grains(const Point<3> &, const Objects::NaturalCoordinate &, const double depth, const unsigned int n, WorldBuilder::grains g, const double fmin, const double fmax) const override
+    {
+      for (unsigned i = 0; i < g.sizes.size(); ++i)
+        {
+          g.sizes[i] = sym_uf4(300+id+10*n, depth, g.sizes[i], fmin, fmax);
+          for (unsigned r = 0; r < 9; ++r) g.rotation_matrices[i][r/3][r%3] = sym_uf4(400+id+10*n, depth, g.rotation_matrices[i][r/3][r%3], fmin, fmax);
+        }
+      return g;
+    } };
+  struct StubPV final : PM::Velocity::Interface
+  { unsigned id; void parse_entries(Parameters &) override {}
+    std::array<double,3> get_velocity(const Point<3> &, const Objects::NaturalCoordinate &, const double depth, const double, std::array<double,3> v, const double fmin, const double fmax, const double rel) const override
+    { return {{sym_uf4(500+id, depth, v[0], fmin + fmax, rel), sym_uf4(510+id, depth, v[1], fmin + fmax, rel), sym_uf4(520+id, depth, v[2], fmin + fmax, rel)}}; } };
+}
+extern "C" void h_c02_plume_frame(unsigned long L, unsigned long counts)
+{
+  alignas(Features::Plume) static unsigned char fbuf[sizeof(Features::Plume)];
+  World *w = make_world(0);
+  auto *f = reinterpret_cast<Features::Plume *>(fbuf);
+  f->world = w; f->tag_index = 7;
+  new (&f->coordinates) std::vector<Point<2>>();
+  new (&f->depths) std::vector<double>(); new (&f->semi_major_axis_lengths) std::vector<double>();
+  new (&f->eccentricities) std::vector<double>(); new (&f->rotation_angles) std::vector<double>();
+  new (&f->temperature_models) std::vector<std::unique_ptr<PM::Temperature::Interface>>();
+  new (&f->composition_models) std::vector<std::unique_ptr<PM::Composition::Interface>>();
+  new (&f->grains_models) std::vector<std::unique_ptr<PM::Grains::Interface>>();
+  new (&f->velocity_models) std::vector<std::unique_ptr<PM::Velocity::Interface>>();
+  const unsigned nT = counts % 3, nC = (counts / 3) % 3, nG = (counts / 9) % 3, nV = (counts / 27) % 3;
+  for (unsigned i = 0; i < nT; ++i) { auto *m = new StubPT2(); m->id = i; f->temperature_models.emplace_back(m); }
+  for (unsigned i = 0; i < nC; ++i) { auto *m = new StubPC(); m->id = i; f->composition_models.emplace_back(m); }
+  for (unsigned i = 0; i < nG; ++i) { auto *m = new StubPG(); m->id = i; f->grains_models.emplace_back(m); }
+  for (unsigned i = 0; i < nV; ++i) { auto *m = new StubPV(); m->id = i; f->velocity_models.emplace_back(m); }
+  f->min_depth = sym_f64("min"); f->max_depth = sym_f64("max");
+  f->coordinates.emplace_back(sym_f64("cx"), sym_f64("cy"), cartesian);
+  f->depths.push_back(sym_f64("d")); f->semi_major_axis_lengths.push_back(sym_f64("a")); f->eccentricities.push_back(sym_f64("e")); f->rotation_angles.push_back(sym_f64("rot"));
+  sym_assume(f->semi_major_axis_lengths[0] >= 0 && f->eccentricities[0] >= 0 && f->eccentricities[0] < 1 && f->min_depth >= 0 && f->depths[0] > f->min_depth && f->max_depth >= f->depths[0]);
+  const Point<3> pos(sym_f64("x"), sym_f64("y"), sym_f64("z"), cartesian);
+  const Objects::NaturalCoordinate nc(pos, *w->parameters.coordinate_system);
+  const double depth = sym_f64("depth"), g = sym_f64("gravity");
+  sym_assume(depth >= f->depths[0]);                       // at or below the (only) cross section: the head ellipsoid is C04.plume's subject
+  const std::vector<Prop> props = make_request(static_cast<unsigned>(L), 1);
+  std::vector<size_t> entry; std::vector<double> out;
+  for (unsigned i = 0; i < props.size(); ++i) { entry.push_back(out.size()); for (unsigned s = 0; s < width_of(props[i]); ++s) out.push_back(sym_f64("old")); }
+  out.push_back(sym_f64("guard"));
+  const std::vector<double> old = out;
+  rec.calls = 0;
+  sym_freeze(); sym_allow(&rec); sym_allow(&trec); sym_allow(out.data());
+  f->Features::Plume::properties(pos, nc, depth, props, g, entry, out);
+  sym_assert(sym_writes() == 0, "the feature query stores only to fresh memory and the caller's output vector");
+  const bool inside = depth <= f->max_depth && rec.calls == 1 && rec.ret <= 1.0;
+  const double lmin = f->min_depth, lmax = f->max_depth, rel = rec.ret;
+  for (unsigned i = 0; i < props.size(); ++i)
+    {
+      const size_t e = entry[i];
+      if (!inside) { for (unsigned s = 0; s < width_of(props[i]); ++s) sym_assert(sym_same(out[e+s], old[e+s]), "a feature that does not contain the point changes nothing"); continue; }
+      switch (props[i][0])
+        {
+          case 1: { double v = old[e]; for (unsigned m = 0; m < nT; ++m) v = sym_uf4(100+m, depth, v, lmin + lmax, rel);
+                    sym_assert(sym_same(out[e], v), "temperature is the chain of the feature's models in list order (unchanged without models)"); break; }
+          case 2: { double v = old[e]; for (unsigned m = 0; m < nC; ++m) v = sym_uf4(200+m+10*props[i][1], depth, v, lmin, lmax);
+                    sym_assert(sym_same(out[e], v), "composition is the chain of the feature's models in list order (unchanged without models)"); break; }
+          case 3: { const unsigned k = props[i][2];
+                    for (unsigned q = 0; q < 10*k; ++q) { double v = old[e+q]; for (unsigned m = 0; m < nG; ++m) v = sym_uf4((q < k ? 300 : 400)+m+10*props[i][1], depth, v, lmin, lmax);
+                                                          sym_assert(sym_same(out[e+q], v), "grains are the chain of the feature's models in list order (unchanged without models)"); }
+                    break; }
+          case 4: sym_assert(out[e] == 7.0, "tag is the feature's own index"); break;
+          case 5: { if (nV == 0) break;
+                    for (unsigned q = 0; q < 3; ++q) { double v = 0.0; for (unsigned m = 0; m < nV; ++m) v = sym_uf4(500+10*q+m, depth, v, lmin + lmax, rel);
+                                                       sym_assert(sym_same(out[e+q], v), "velocity is the chain of the feature's velocity models"); }
+                    break; }
+        }
+    }
+  sym_assert(sym_same(out.back(), old.back()) && out.size() == old.size(), "nothing outside the requested slots is written");
+  sym_reach("end");
+}
